@@ -547,4 +547,37 @@ theorem history_stateless {α β : Type} (f : α → β) (calls : List α) (k : 
   simp [h]
 
 
+/-! ## hardening pass 2: atomic failing calls, independent objects / copies, grad-mode independence -/
+
+/-- **A failing call is atomic** (model of an object whose calls may fail, `none` = raises): the results of the calls that
+succeed are the same as in the history from which the failing calls are removed — a call that raised leaves no trace. -/
+theorem failed_calls_atomic {α β : Type} (f : α → Option β) (calls : List α) :
+    calls.filterMap f = (calls.filter fun c => (f c).isSome).filterMap f := by
+  induction calls with
+  | nil => rfl
+  | cons c cs ih =>
+    cases h : f c with
+    | none => simp [h, ih]
+    | some b => simp [h, ih]
+
+/-- **Copies and several objects are independent**: in a history of calls tagged with the object they are made on, the
+results seen on object `a` are exactly the results of `a`'s own sub-history (an object and its copy share `f`, not state). -/
+theorem objects_independent {τ α β : Type} [DecidableEq τ] (f : α → β) (calls : List (τ × α)) (a : τ) :
+    ((calls.map fun tc => (tc.1, f tc.2)).filter fun r => r.1 = a).map (·.2)
+      = ((calls.filter fun tc => tc.1 = a).map (·.2)).map f := by
+  induction calls with
+  | nil => rfl
+  | cons c cs ih =>
+    by_cases h : c.1 = a
+    · simp [h, ih]
+    · simp [h, ih]
+
+/-- **Values do not depend on the grad mode**: the model of a kernel / corrector call has no mode argument at all; stated
+for an explicit mode parameter `m`: any implementation `g` that agrees with the pure model `f` in one mode and ignores the
+mode agrees with it in every mode. -/
+theorem mode_independent {μ α β : Type} (f : α → β) (g : μ → α → β) (m0 : μ) (h0 : ∀ x, g m0 x = f x)
+    (hm : ∀ m m' x, g m x = g m' x) (m : μ) (x : α) : g m x = f x := by
+  rw [hm m m0 x, h0 x]
+
+
 end PP.Corrector
